@@ -7,4 +7,4 @@ Definition keepZ : Z := Z.add 0 0.
 Definition keepNat : nat := length (@nil N).
 Definition keepRes : result N := Ok 0%N.
 Extraction "model_c10.ml" keepN keepZ keepNat keepRes model_obs judge tag_code
-  known_collateral_plutus known_stale_spend known_prop_nonscript.
+  known_collateral_plutus known_prop_nonscript.
